@@ -313,7 +313,15 @@ class PCABook(Machine):
             self.pool[op["dst"] % POOL] = n
 
     def _op_query(self, op, e):
-        pass  # identities on random vectors are part of the per-step check (seeded by k, a)
+        # identities on random vectors are part of the per-step check; this op only adds queries between
+        # bookkeeping changes (projection caches, if any, get warmed with the current counts)
+        g = rs(op["seed"])
+        x = self.X[int(g.randint(self.X.shape[0]))]
+        try:
+            e.m.project(self.w.obj(x))
+            e.m.reconstruct(self.w.obj(x))
+        except Exception as ex:
+            self.ctx.fail("identities", "query_raised", repr(ex))
 
     # ------------------------------------------------------------------
     def _check(self, e):
@@ -395,11 +403,20 @@ class PCABook(Machine):
         wts = g.randn(a) * np.sqrt(ev)
         inst = m.instance(wts.copy())
         back = np.asarray(m.project(inst), dtype=float)
+        if back.shape != wts.shape:
+            ctx.fail("identities", "project_returns_wrong_number_of_weights",
+                     "project() returned %d weights for a model with %d active components" % (back.size, a))
+            return
         err = float(np.abs(back - wts).max() / (np.sqrt(lam[0]) + np.abs(wts).max()))
         ctx.err("project_instance", err)
         ctx.require(err < 1e-8, "identities", "project_of_instance_is_not_weights", lambda: "err %.3g" % err)
-        rec = m.reconstruct(xo)
-        rec2 = m.reconstruct(rec)
+        try:
+            rec = m.reconstruct(xo)
+            rec2 = m.reconstruct(rec)
+            po_obj = m.project_out(xo)
+        except Exception as ex:
+            ctx.fail("identities", "reconstruct_or_project_out_raised", "k=%d a=%d: %r" % (k, a, ex))
+            return
         rv, rv2 = w.vec(rec), w.vec(rec2)
         sc = self.scale
         ctx.require(float(np.abs(rv2 - rv).max()) < 1e-8 * sc, "identities", "reconstruct_not_idempotent")
@@ -408,7 +425,7 @@ class PCABook(Machine):
                     lambda: "C @ (x - reconstruct(x)) = %r" % (C @ resid).tolist())
         inspan = (rv - mu) - C.T @ (C @ (rv - mu))
         ctx.require(float(np.abs(inspan).max()) < 1e-8 * sc, "identities", "reconstruction_not_in_model_span")
-        po = w.vec(m.project_out(xo))
+        po = w.vec(po_obj)
         ctx.require(float(np.abs(C @ po).max()) < 1e-8 * sc, "identities", "project_out_not_orthogonal")
         ctx.require(float(np.abs(po - resid).max()) < 1e-8 * sc, "identities", "project_out_is_not_residual")
         ctx.require(np.array_equal(w.vec(xo), x), "identities", "query_modified_input")
